@@ -1,0 +1,212 @@
+//go:build verif
+
+package modbus
+
+// Verification hooks (build tag "verif"). Thin pass-throughs to unexported
+// code, used only by the external verification harness. No logic of their own.
+
+import (
+	"crypto/x509"
+	"net"
+	"time"
+)
+
+// VerifNewClientOnConn creates a client with NewClient(conf) and attaches the
+// transport selected by the URL scheme to the given connection instead of
+// dialling.
+func VerifNewClientOnConn(conf *ClientConfiguration, conn net.Conn) (mc *ModbusClient, err error) {
+	mc, err = NewClient(conf)
+	if err != nil {
+		return
+	}
+
+	switch mc.transportType {
+	case modbusRTU, modbusRTUOverTCP:
+		mc.transport = newRTUTransport(
+			conn, mc.conf.URL, mc.conf.Speed, mc.conf.Timeout, mc.conf.Logger)
+	case modbusRTUOverUDP:
+		mc.transport = newRTUTransport(
+			newUDPSockWrapper(conn),
+			mc.conf.URL, mc.conf.Speed, mc.conf.Timeout, mc.conf.Logger)
+	case modbusTCP:
+		mc.transport = newTCPTransport(conn, mc.conf.Timeout, mc.conf.Logger)
+	case modbusTCPOverTLS:
+		mc.transport = newTCPTransport(
+			newTLSSockWrapper(conn), mc.conf.Timeout, mc.conf.Logger)
+	case modbusTCPOverUDP:
+		mc.transport = newTCPTransport(
+			newUDPSockWrapper(conn), mc.conf.Timeout, mc.conf.Logger)
+	default:
+		err = ErrConfigurationError
+	}
+
+	return
+}
+
+// VerifServeConn runs the per-connection server path on conn and returns
+// once the session is over.
+func (ms *ModbusServer) VerifServeConn(conn net.Conn) {
+	ms.handleTCPClient(conn)
+}
+
+// VerifListenAddr returns the address a started server is bound to.
+func (ms *ModbusServer) VerifListenAddr() (addr net.Addr) {
+	ms.lock.Lock()
+	defer ms.lock.Unlock()
+
+	if ms.tcpListener != nil {
+		addr = ms.tcpListener.Addr()
+	}
+
+	return
+}
+
+// VerifServerSnapshot returns the shared server state under the lock.
+func (ms *ModbusServer) VerifServerSnapshot() (started bool, clients int, listening bool) {
+	ms.lock.Lock()
+	defer ms.lock.Unlock()
+
+	started   = ms.started
+	clients   = len(ms.tcpClients)
+	listening = ms.tcpListener != nil
+
+	return
+}
+
+func VerifCRC(in []byte) (value []byte, state uint16) {
+	var c crc
+
+	c.init()
+	c.add(in)
+
+	return c.value(), c.crc
+}
+
+func VerifCRCStep(state uint16, b byte) (next uint16) {
+	var c crc
+
+	c.crc = state
+	c.add([]byte{b})
+
+	return c.crc
+}
+
+func VerifCRCChunks(chunks [][]byte) (value []byte) {
+	var c crc
+
+	c.init()
+	for _, chunk := range chunks {
+		c.add(chunk)
+	}
+
+	return c.value()
+}
+
+func VerifCRCIsEqual(in []byte, low byte, high byte) bool {
+	var c crc
+
+	c.init()
+	c.add(in)
+
+	return c.isEqual(low, high)
+}
+
+func VerifUint16ToBytes(e Endianness, in uint16) []byte  { return uint16ToBytes(e, in) }
+func VerifUint16sToBytes(e Endianness, in []uint16) []byte { return uint16sToBytes(e, in) }
+func VerifBytesToUint16(e Endianness, in []byte) uint16   { return bytesToUint16(e, in) }
+func VerifBytesToUint16s(e Endianness, in []byte) []uint16 { return bytesToUint16s(e, in) }
+func VerifUint32ToBytes(e Endianness, w WordOrder, in uint32) []byte { return uint32ToBytes(e, w, in) }
+func VerifBytesToUint32s(e Endianness, w WordOrder, in []byte) []uint32 { return bytesToUint32s(e, w, in) }
+func VerifUint64ToBytes(e Endianness, w WordOrder, in uint64) []byte { return uint64ToBytes(e, w, in) }
+func VerifBytesToUint64s(e Endianness, w WordOrder, in []byte) []uint64 { return bytesToUint64s(e, w, in) }
+func VerifFloat32ToBytes(e Endianness, w WordOrder, in float32) []byte { return float32ToBytes(e, w, in) }
+func VerifBytesToFloat32s(e Endianness, w WordOrder, in []byte) []float32 { return bytesToFloat32s(e, w, in) }
+func VerifFloat64ToBytes(e Endianness, w WordOrder, in float64) []byte { return float64ToBytes(e, w, in) }
+func VerifBytesToFloat64s(e Endianness, w WordOrder, in []byte) []float64 { return bytesToFloat64s(e, w, in) }
+func VerifEncodeBools(in []bool) []byte { return encodeBools(in) }
+func VerifDecodeBools(quantity uint16, in []byte) []bool { return decodeBools(quantity, in) }
+
+// VerifExtractRole runs role extraction on an in-memory certificate.
+func VerifExtractRole(cert *x509.Certificate) string {
+	var ms = &ModbusServer{logger: newLogger("verif", nil)}
+
+	return ms.extractRole(cert)
+}
+
+// VerifClientConf is a copy of a client's effective configuration.
+type VerifClientConf struct {
+	URL        string
+	Speed      uint
+	DataBits   uint
+	Parity     uint
+	StopBits   uint
+	Timeout    time.Duration
+	UnitId     uint8
+	Endianness Endianness
+	WordOrder  WordOrder
+	Transport  uint
+}
+
+func VerifClientConfig(mc *ModbusClient) (c VerifClientConf) {
+	mc.lock.Lock()
+	defer mc.lock.Unlock()
+
+	c = VerifClientConf{
+		URL:        mc.conf.URL,
+		Speed:      mc.conf.Speed,
+		DataBits:   mc.conf.DataBits,
+		Parity:     mc.conf.Parity,
+		StopBits:   mc.conf.StopBits,
+		Timeout:    mc.conf.Timeout,
+		UnitId:     mc.unitId,
+		Endianness: mc.endianness,
+		WordOrder:  mc.wordOrder,
+		Transport:  uint(mc.transportType),
+	}
+
+	return
+}
+
+// VerifServerConf is a copy of a server's effective configuration.
+type VerifServerConf struct {
+	URL        string
+	Timeout    time.Duration
+	MaxClients uint
+	Transport  uint
+}
+
+func VerifServerConfig(ms *ModbusServer) (c VerifServerConf) {
+	c = VerifServerConf{
+		URL:        ms.conf.URL,
+		Timeout:    ms.conf.Timeout,
+		MaxClients: ms.conf.MaxClients,
+		Transport:  uint(ms.transportType),
+	}
+
+	return
+}
+
+// VerifSerialTimings returns (t1, t3.5) as computed for an RTU transport at
+// the given speed.
+func VerifSerialTimings(speed uint) (t1 time.Duration, t35 time.Duration) {
+	var rt = newRTUTransport(nil, "", speed, 0, nil)
+
+	return rt.t1, rt.t35
+}
+
+// VerifExpectedResponseLength exposes the RTU length inference table.
+func VerifExpectedResponseLength(fc uint8, b2 uint8) (n int, err error) {
+	return expectedResponseLenth(fc, b2)
+}
+
+// VerifMapExceptionCodeToError / VerifMapErrorToExceptionCode expose the
+// exception tables.
+func VerifMapExceptionCodeToError(code uint8) error { return mapExceptionCodeToError(code) }
+func VerifMapErrorToExceptionCode(err error) uint8  { return mapErrorToExceptionCode(err) }
+
+// VerifSetYield installs the scheduling-point callback.
+func VerifSetYield(f func(point string)) {
+	verifYieldMu.Lock()
+	verifYieldFn = f
+	verifYieldMu.Unlock()
+}
